@@ -61,6 +61,24 @@ def replay(r, verbose=False):
     L = lengths.by_length()
     rep = Report(PROP, "quick", 0)
     rep.findings = []
+    if r.get("kind") == "big":
+        kind, target, c, start = r["case"]
+        if kind == "short":
+            seq = [10, 10, 3, 10, 10, 5, 10, 10]
+        else:
+            cyc = [l for l in (10, 3, 1, 7, 5, 10, 2) if l in L]
+            seq, tot = [], 0
+            while tot < target:
+                seq.append(cyc[len(seq) % len(cyc)])
+                tot += seq[-1]
+        obs = hexec.run(["i\to%d\tN%d:%s" % (start, c, hexec.esc("".join(L[l][0] + "\n" for l in seq)))], dangerous=True, nproc=1,
+                        timeout=30)[0]
+        if hexec.is_crash(obs):
+            return True
+        a = hexec.Asm(next(o for o in obs if o[:2] == "N:"))
+        if verbose:
+            print(r["case"], a.ret, a.off, a.dest, models.count_breaks(start, seq, c))
+        return a.ret != 0 or a.dest != models.count_breaks(start, seq, c) or a.off != start + sum(seq)
     j = r["job"]
     j["calls"] = [(k, c, list(ls)) for k, c, ls in j["calls"]]
     verify(rep, [j], L, "replay")
@@ -145,6 +163,66 @@ def run(tier, seed):
             rep.states += len(jobs)
         finally:
             shutil.rmtree(tmp, ignore_errors=True)
+    # chunk sizes at and above the size of a library-managed buffer, with programs that grow the buffer past the chunk size
+    # ("c larger than the program" and "c smaller than the program" meet when the buffer length changes during the call)
+    if not rep.expired():
+        cyc = [l for l in (10, 3, 1, 7, 5, 10, 2) if l in L]
+        progs = {}
+        for target in (6500, 13000):
+            seq = []
+            tot = 0
+            while tot < target:
+                l = cyc[len(seq) % len(cyc)]
+                seq.append(l)
+                tot += l
+            progs[target] = seq
+        hs, meta = [], []
+        for target, seq in progs.items():
+            text = hexec.esc("".join(L[l][0] + "\n" for l in seq))
+            hs.append("i\tA%s" % text)
+            meta.append(("plain", target, 0, 0))
+            for c in (5999, 6000, 6001, 6019, 6020, 6021, 6100, 7001, 12019, 12020, 12021, 12500, 100000):
+                for start in (0, 7):
+                    hs.append("i\to%d\tN%d:%s" % (start, c, text))
+                    meta.append(("count", target, c, start))
+        # a short program placed just below the end of the initial buffer
+        short = [10, 10, 3, 10, 10, 5, 10, 10]
+        stext = hexec.esc("".join(L[l][0] + "\n" for l in short))
+        for start in (5990, 6000, 6010, 6015):
+            for c in (6010, 6020, 6030, 6050):
+                hs.append("i\to%d\tN%d:%s" % (start, c, stext))
+                meta.append(("short", 0, c, start))
+        res = hexec.run(hs, dangerous=True, timeout=30)
+        plain = {}
+        for (kind, target, c, start), obs in zip(meta, res):
+            rep.evaluations += 1
+            rep.traces += 1
+            if hexec.is_crash(obs):
+                rep.fail({"class": "big-chunk", "chunk": str(c), "start": str(start)}, ["crash"], {"kind": "big", "case": [kind, target, c, start]},
+                         "internal buffer, chunk %d, start %d: %s" % (c, start, obs[-1][:60]))
+                continue
+            a = hexec.Asm(next(o for o in obs if o[:2] in ("A:", "N:")))
+            if kind == "plain":
+                plain[target] = (a.ret, a.off)
+                continue
+            seq = short if kind == "short" else progs[target]
+            want = models.count_breaks(start, seq, c)
+            nontriv += want > 0
+            disc = set()
+            if a.ret != 0:
+                disc.add("rejected")
+            elif a.dest != want:
+                disc.add("count")
+            elif a.off != start + sum(seq):
+                disc.add("offset")
+            rep.outcomes.add(("big", c, a.dest))
+            if disc:
+                rep.fail({"class": "big-chunk", "chunk": str(c), "start": str(start), "kind": kind}, disc,
+                         {"kind": "big", "case": [kind, target, c, start]},
+                         "internal buffer, %d-byte program, counting chunk %d from offset %d: count %s, model %d, ret %s off %s" %
+                         (sum(seq), c, start, a.dest, want, a.ret, a.off))
+        rep.bounds["big_chunk_cases_on_growing_buffer"] = len(meta)
+        rep.states += len(meta)
     rep.distinct_n = int(nontriv)
     rep.sample({"start": 3, "chunk": 4, "lengths": [3, 5], "model_count": models.count_breaks(3, [3, 5], 4)})
     rep.sample({"start": 0, "chunk": 16, "lengths": [10, 10], "model_count": models.count_breaks(0, [10, 10], 16)})
